@@ -32,6 +32,8 @@ def run(rep, kf, tier, seed):
         tasks.append(t)
     for r in core.run_parallel(tasks):
         rep.merge(r)
+    import contracts.removal as crm
+    engine_b.discharge(rep, kf, [crm.propagate_contract()], "C06", tier, seed)
     import contracts.containment as ct
     ct.discharge(rep, kf, "C06", tier, seed)
     run_bounded(rep, kf, "C06", ["body_refs", "removal_closure", "enum_values", "schema_order"], tier)
